@@ -11,6 +11,9 @@ Further down (added for the strengthened rules):
   * MissingBitsEval / check_missing_region  - own interpreter for the statements that pack missing bits, over a symbolic missingness vector
   * MissingBitsReadEval / check_missing_reader - the same for decoders: symbolic missing bytes, which symbol guards the k-th delegated decode
   * type_params_passed        - value-class constructor parameters that are parameters of the Hail type must come from self
+  * MAP_BASE / _MapKey        - MissingBitsEval: entries of a view of a Mapping value (value.values() / .items() / .keys()) are slots in the value's OWN
+                                iteration order (symbols >= MAP_BASE), distinct from the declared slots; check_missing_region reports a header built from them
+  * packed_read_summary       - composite reader operation of the stream class that unpacks `count` values of one struct code -> one 'packed' wire item
 """
 from __future__ import annotations
 
@@ -535,6 +538,14 @@ class Extractor:
             if mentions(g.iter, self.stream):
                 self.fail(e, 'comprehension iterable reads the byte stream')
             body = self.expr(e.elt, None, st)
+            return [('loop', dict(iter=g.iter, target=g.target, kind='comp', node=e, bind=bind), body)]
+        if isinstance(e, ast.DictComp):
+            if len(e.generators) != 1 or e.generators[0].ifs or e.generators[0].is_async:
+                self.fail(e, 'comprehension with several generators / filters around a stream operation')
+            g = e.generators[0]
+            if mentions(g.iter, self.stream):
+                self.fail(e, 'comprehension iterable reads the byte stream')
+            body = self.expr(e.key, None, st) + self.expr(e.value, None, st)   # per entry: key, then value
             return [('loop', dict(iter=g.iter, target=g.target, kind='comp', node=e, bind=bind), body)]
         if isinstance(e, ast.Attribute):
             return self.expr(e.value, None, st)
@@ -2084,9 +2095,11 @@ def _declared_order(got: List[Dict[int, frozenset]]) -> Tuple[List[Dict[int, fro
     return out, used
 
 
-def check_missing_region(info: dict, max_n: int = MAX_N) -> Tuple[Optional[str], Set[str]]:
+def check_missing_region(info: dict, max_n: int = MAX_N, own_order_is_defect: bool = True) -> Tuple[Optional[str], Set[str]]:
     """None when the region writes exactly the engine's missing bytes for every n <= max_n and every missingness vector; otherwise a
-    message with a concrete counter-example.  Also returns which size the region ranges over ('value' = len(value), 'fields')."""
+    message with a concrete counter-example.  Also returns which size the region ranges over ('value' = len(value), 'fields', 'mapping' =
+    a view of a Mapping value).  own_order_is_defect: slots are the DECLARED components of a fixed-arity type (struct), so a header that
+    follows the value's own iteration order is wrong; False for containers whose slots are the entries of the value itself."""
     sources: Set[str] = set()
     views: List[str] = []
     own_order = False
@@ -2125,7 +2138,7 @@ def check_missing_region(info: dict, max_n: int = MAX_N) -> Tuple[Optional[str],
                 lost = sorted(ws - gs)
                 return (f'n = {n}, slot {lost[0]} missing: bit {bit} of byte {b} is not set' + (f' (it is set for slot(s) {sorted(gs)} instead)' if gs else '')
                         + ': the reader decodes a value for the missing slot and every later value is read from the wrong offset'), sources
-    if own_order:
+    if own_order and own_order_is_defect:
         v = ', '.join(f'`{x}`' for x in views) or 'a view of the value'
         return (f'bit k of the missing bytes is computed from the k-th entry of {v}, i.e. in the iteration order of the value itself, but bit k belongs to the k-th DECLARED '
                 f'field (the payload loop, the decoder and the engine\'s EBaseStruct all go by the type); a well-typed struct value is any Mapping with the declared keys, '
